@@ -38,6 +38,21 @@ Theorem never_retries_terminal :
       length (w_reqs (write cfg ty k jit script)) = S i.
 Proof. exact C20_proofs.never_retries_terminal_lemma. Qed.
 
+(* ... and every retryable answer - in particular EVERY transport error, whatever its error value (timeouts and errors
+   wrapping context.DeadlineExceeded / context.Canceled included) - IS retried while the caller's own context is alive:
+   with no cancellation in the script the call stops after a retryable answer only when the retries are used up
+   (then more than MaxRetries requests were made) or the script has no further entry *)
+Theorem retries_while_alive :
+  forall cfg ty k jit script t,
+    0 <= c_min cfg -> (forall n, 0 <= jit n) -> validate ty = Some t -> marshals k = true ->
+    cancel_bound script = None ->
+    forall last tl,
+      rev (map fst (firstn (length (w_reqs (write cfg ty k jit script))) script)) = last :: tl ->
+      spec_retryable cfg last = true ->
+      (c_max_retries cfg = 0 \/ Z.of_nat (length (w_reqs (write cfg ty k jit script))) <= c_max_retries cfg) ->
+      length (w_reqs (write cfg ty k jit script)) = length script.
+Proof. exact C20_proofs.retries_while_alive_lemma. Qed.
+
 (* at most MaxRetries retries (MaxRetries + 1 requests) when MaxRetries > 0; none when it is negative *)
 Theorem at_most_max_retries :
   forall cfg ty k jit script t,
